@@ -11,15 +11,15 @@ from __future__ import annotations
 
 import numpy as np
 
-from .. import gens, pc
+from .. import forms, gens, pc
 from ..common import Skip, brief
 
 ID = "C05"
 CASES = {"quick": 3000, "thorough": 30000}
 FLOOR = {"quick": 2200, "thorough": 22000}
 FLOOR_COUNTERS = {
-    "quick": {"plumbing_pairs": 1000, "heldout_scores_judged": 900, "pcovr_equivalences": 90, "kpca_limits": 300, "heldout_size_gt_n": 150, "heldout_size_1": 100, "estimators_with_a_past": 300},
-    "thorough": {"plumbing_pairs": 14000, "heldout_scores_judged": 12000, "pcovr_equivalences": 600, "kpca_limits": 4000, "heldout_size_gt_n": 2000, "heldout_size_1": 1500, "estimators_with_a_past": 3500},
+    "quick": {"fits_through_fit_transform": 500, "configured_not_by_constructor": 1500, "non_default_containers": 1000, "plumbing_pairs": 1000, "heldout_scores_judged": 900, "pcovr_equivalences": 90, "kpca_limits": 300, "heldout_size_gt_n": 150, "heldout_size_1": 100, "estimators_with_a_past": 300},
+    "thorough": {"fits_through_fit_transform": 5000, "configured_not_by_constructor": 15000, "non_default_containers": 10000, "plumbing_pairs": 14000, "heldout_scores_judged": 12000, "pcovr_equivalences": 600, "kpca_limits": 4000, "heldout_size_gt_n": 2000, "heldout_size_1": 1500, "estimators_with_a_past": 3500},
 }
 RULE = (
     "case = X, Y (1-D/2-D), kernel in {linear, rbf, poly, sigmoid(small gamma), cosine} with gamma/degree/coef0, center, "
@@ -74,6 +74,9 @@ def gen(rng, tier, index):
         "alpha": float(10.0 ** rng.uniform(-3, 0)),
         "past": bool(rng.random() < 0.3),  # the estimator object was configured and fitted differently before
         "Xd": rng.normal(size=(int(rng.integers(5, hi)), f)),
+        "how": [gens.pick(rng, forms.CONFIGURE) for _ in range(4)],
+        "via": gens.pick(rng, ("fit", "fit", "fit_transform")),
+        "xform": gens.pick(rng, forms.PRESENT),
     }
 
 
@@ -93,7 +96,13 @@ def _make(case, kernel, center, reg, mixing=None, k=None):
     from skmatter.decomposition import KernelPCovR
 
     kw = dict(case["kp"]) if kernel != "precomputed" else {}
-    return KernelPCovR(mixing=case["mixing"] if mixing is None else mixing, n_components=case["k"] if k is None else k, kernel=kernel, center=center, regressor=reg, svd_solver="full", **kw)
+    params = dict(mixing=case["mixing"] if mixing is None else mixing, n_components=case["k"] if k is None else k, kernel=kernel, center=center, regressor=reg, svd_solver="full", **kw)
+    hows = case.get("how") or ["ctor"]
+    case["_made"] = case.get("_made", 0) + 1
+    how = hows[case["_made"] % len(hows)]
+    if how == "clone" and hasattr(reg, "dual_coef_"):
+        how = "ctor"  # clone() would un-fit a pre-fitted regressor: a different configuration, not another route to the same one
+    return forms.configure(KernelPCovR, params, how)
 
 
 def run(case, j):
@@ -163,7 +172,18 @@ def run(case, j):
         est_a.transform(Xd[:2])
         est_a.set_params(center=center, mixing=a)
         j.note("estimators_with_a_past")
-    j.lib("fit:named", est_a.fit, X, fit_Y, **fit_kw)
+    Xin = forms.present(X, case.get("xform", "C"))
+    if case.get("how") and any(h != "ctor" for h in case["how"]):
+        j.note("configured_not_by_constructor")
+    if case.get("xform", "C") != "C":
+        j.note("non_default_containers")
+    if case.get("via") == "fit_transform":
+        Tft = np.asarray(j.lib("fit_transform:named", est_a.fit_transform, Xin, fit_Y, **fit_kw))
+        Ttr = np.asarray(est_a.transform(X))
+        j.close("fit_transform(X, y) == transform(X) of the estimator it fitted", Tft, Ttr, 1e-9 * max(float(np.abs(Ttr).max()), 1e-300), {"center": center})
+        j.note("fits_through_fit_transform")
+    else:
+        j.lib("fit:named", est_a.fit, Xin, fit_Y, **fit_kw)
 
     # ---- (v) any number of new samples: shapes
     T_v = np.asarray(j.lib("transform:heldout", est_a.transform, Xv))
